@@ -264,6 +264,7 @@ pub fn dispatch(cmd: &str, name: &str, arg: &str) -> Option<String> {
     if name.starts_with("connect.") { return dispatch_connect(cmd, name, arg); }
     if name.starts_with("loopback.") { return dispatch_loopback(cmd, name, arg); }
     if name.starts_with("skip.") { return dispatch_skipgrad(cmd, name, arg); }
+    if name.starts_with("learn.") { return dispatch_schedule(cmd, name, arg); }
     if !["conv", "deconv", "pool"].iter().any(|p| name.starts_with(p)) { return None; }
     std::panic::set_hook(Box::new(|_| {}));
     if cmd == "run" {
@@ -475,5 +476,110 @@ pub fn dispatch_skipgrad(cmd: &str, name: &str, arg: &str) -> Option<String> {
             if let Err(e) = one(n, c, seed) { return Some(format!("{{\"failed\":true,\"tried\":{},\"input\":{},\"detail\":{:?}}}", tried, fmt(n, c, seed), e)); }
         }}
     }
+    Some(format!("{{\"failed\":false,\"tried\":{}}}", tried))
+}
+
+// ------------------------------------------------------------------------------------------------ training schedule (C04)
+fn sched_net(seed: u64, momentum: bool) -> crate::network::Network {
+    let mut rng = Lcg(seed.wrapping_mul(2654435761).wrapping_add(7));
+    let mut net = crate::network::Network::new(Shape::Single(2));
+    net.dense(2, Activation::Linear, true, None);
+    net.dense(1, Activation::Linear, false, None);
+    let mut first = true;
+    for layer in net.layers.iter_mut() {
+        if let crate::network::Layer::Dense(l) = layer {
+            if first {
+                l.weights = Tensor::double(vec![vec![rng.int(-2, 2), rng.int(-2, 2)], vec![rng.int(-2, 2), rng.int(-2, 2)]]);
+                l.bias = Some(Tensor::single(vec![rng.int(-1, 1), rng.int(-1, 1)]));
+                first = false;
+            } else {
+                l.weights = Tensor::double(vec![vec![rng.int(-2, 2), rng.int(-2, 2)]]);
+            }
+        }
+    }
+    net.set_objective(crate::objective::Objective::MSE, None);
+    // step-number dependent optimizer (Adam's bias correction uses the step number) or plain SGD with momentum
+    if momentum { net.set_optimizer(crate::optimizer::SGDM::create(0.015625, 0.5, 0.0, None)); }
+    else { net.set_optimizer(crate::optimizer::Adam::create(0.015625, 0.5, 0.75, 1e-3, None)); }
+    net
+}
+fn sched_weights(net: &crate::network::Network) -> Vec<u32> {
+    let mut out = Vec::new();
+    for layer in net.layers.iter() {
+        if let crate::network::Layer::Dense(l) = layer {
+            if let Data::Double(w) = &l.weights.data { for r in w { for v in r { out.push(v.to_bits()); } } }
+            if let Some(b) = &l.bias { if let Data::Single(b) = &b.data { for v in b { out.push(v.to_bits()); } } }
+        }
+    }
+    out
+}
+/// the statement of C04 executed literally (private forward / backward / update of the same crate) against `learn`
+pub fn schedule_one(n: usize, b: usize, e: i32, seed: u64) -> Result<(), String> {
+    let mut rng = Lcg(seed.wrapping_add(1000));
+    let xs: Vec<Tensor> = (0..n).map(|_| Tensor::single(vec![rng.int(-2, 2), rng.int(-2, 2)])).collect();
+    let ys: Vec<Tensor> = (0..n).map(|_| Tensor::single(vec![rng.int(-2, 2)])).collect();
+    let xr: Vec<&Tensor> = xs.iter().collect();
+    let yr: Vec<&Tensor> = ys.iter().collect();
+    let momentum = seed % 2 == 0;
+    // reference
+    let mut r = sched_net(seed, momentum);
+    let mut want_loss: Vec<f32> = Vec::new();
+    for epoch in 1..=e {
+        let mut loss_epoch = 0.0f32;
+        let mut groups = 0usize;
+        let mut start = 0usize;
+        while start < n {
+            let end = if start + b < n { start + b } else { n };
+            let mut sw: Vec<Tensor> = Vec::new();
+            let mut sb: Vec<Option<Tensor>> = Vec::new();
+            let mut losses: Vec<f32> = Vec::new();
+            for s in start..end {
+                let (pre, act, maxp, fbs) = r.forward(&xs[s]);
+                let (loss, g) = r.objective.loss(act.last().unwrap(), &ys[s]);
+                let (wg, bg) = r.backward(g, &pre, &act, &maxp, fbs);
+                if loss.is_nan() { return Ok(()); }   // learn() aborts on a NaN loss: a permitted outcome, instance skipped
+                losses.push(loss);
+                if s == start { sw = wg; sb = bg; } else {
+                    for (a, c) in sw.iter_mut().zip(wg.iter()) { a.add_inplace(c); }
+                    for (a, c) in sb.iter_mut().zip(bg.iter()) { if let (Some(a), Some(c)) = (a.as_mut(), c.as_ref()) { a.add_inplace(c); } }
+                }
+            }
+            loss_epoch += losses.iter().sum::<f32>() / losses.len() as f32;
+            r.update(epoch, sw, sb);
+            groups += 1;
+            start = end;
+        }
+        want_loss.push(loss_epoch / groups as f32);
+    }
+    let mut net = sched_net(seed, momentum);
+    let (got_loss, _, _) = net.learn(&xr, &yr, None, b, e, None);
+    if sched_weights(&net) != sched_weights(&r) {
+        return Err("weights after learn() differ from ordered mini-batch gradient-sum descent (one step per group, step number = epoch)".to_string());
+    }
+    let gl: Vec<u32> = got_loss.iter().map(|v| v.to_bits()).collect();
+    let wl: Vec<u32> = want_loss.iter().map(|v| v.to_bits()).collect();
+    if gl != wl { return Err(format!("reported training losses {:?} differ from the mean of group means {:?}", got_loss, want_loss)); }
+    Ok(())
+}
+pub fn dispatch_schedule(cmd: &str, name: &str, arg: &str) -> Option<String> {
+    if name != "learn.schedule" { return None; }
+    if std::env::var("VERIF_SHOW_PANIC").is_err() { std::panic::set_hook(Box::new(|_| {})); }
+    let fmt = |n: usize, b: usize, e: i32, seed: u64| format!("{{\"samples\":{},\"batch\":{},\"epochs\":{},\"seed\":{}}}", n, b, e, seed);
+    let one = |n: usize, b: usize, e: i32, seed: u64| -> Result<(), String> {
+        match std::panic::catch_unwind(move || schedule_one(n, b, e, seed)) { Ok(r) => r, Err(_) => Err("learn() or the reference panicked".into()) }
+    };
+    if cmd == "run" {
+        let v: Vec<u64> = arg.split(|c: char| !c.is_ascii_digit()).filter(|x| !x.is_empty()).filter_map(|x| x.parse().ok()).collect();
+        if v.len() != 4 { return None; }
+        return Some(match one(v[0] as usize, v[1] as usize, v[2] as i32, v[3]) {
+            Ok(()) => format!("{{\"failed\":false,\"input\":{}}}", fmt(v[0] as usize, v[1] as usize, v[2] as i32, v[3])),
+            Err(e) => format!("{{\"failed\":true,\"input\":{},\"detail\":{:?}}}", fmt(v[0] as usize, v[1] as usize, v[2] as i32, v[3]), e),
+        });
+    }
+    let mut tried = 0usize;
+    for n in 1..=5usize { for b in 1..=6usize { for e in 1..=3i32 { for seed in 0..2u64 {
+        tried += 1;
+        if let Err(err) = one(n, b, e, seed) { return Some(format!("{{\"failed\":true,\"tried\":{},\"input\":{},\"detail\":{:?}}}", tried, fmt(n, b, e, seed), err)); }
+    }}}}
     Some(format!("{{\"failed\":false,\"tried\":{}}}", tried))
 }
